@@ -434,28 +434,27 @@ Proof.
   - rewrite !nth_overflow by (rewrite ?map_length; auto). reflexivity.
 Qed.
 
-(* the structure of ANOVA(order=2).cores(r, noise=0): add_many of the order-1 tensor and one pair tensor per pair; all
-   summands are well formed with the observed shape and their entries add up to calc_pos (whatever truncate does) *)
-Lemma anova_order2_struct I y (M : anova T) r g idx :
+(* the structure of ANOVA(order=2).cores(r, noise=0): add_many of the order-1 tensor and one pair tensor per pair
+   (the list Ps does not depend on the multi-index); at every multi-index all summands are well formed with the
+   observed shape and their entries add up to calc_pos (whatever truncate does) *)
+Lemma anova_order2_struct I y (M : anova T) r g :
   ANOVA K I y 2 = Ok M -> (2 <= r)%nat -> (2 <= dimI I)%nat ->
-  length idx = dimI I -> (forall k, (k < dimI I)%nat -> (nth k idx O < nth k (shapes (domain I)) O)%nat) ->
   exists Ps, length Ps = length (pairs (dimI I)) /\
      (forall trunc, cores K M r 0 false g skel trunc = Ok (add_many K trunc (cores_1 K M r 0 g :: Ps))) /\
+     (forall num, (num < length Ps)%nat -> exists A i j, (i < j < dimI I)%nat /\
+          mr A = nth i (shapes (domain I)) O /\ mc A = nth j (shapes (domain I)) O /\
+          nth num Ps [] = second_order_2_tt K (skel num) A i j (shapes (domain I))) /\
+     forall idx, length idx = dimI I -> (forall k, (k < dimI I)%nat -> (nth k idx O < nth k (shapes (domain I)) O)%nat) ->
      okY idx (shapes (domain I)) (cores_1 K M r 0 g) /\ Forall (okY idx (shapes (domain I))) Ps /\
      get K (cores_1 K M r 0 g) idx + lsum K (map (fun Yc => get K Yc idx) Ps) = calc_pos K M idx.
 Proof.
-  intros HM Hr Hd L Hidx.
+  intros HM Hr Hd.
   unfold ANOVA in HM. cbn [Nat.eqb orb negb Nat.leb] in HM. injection HM as <-.
   set (dom := domain I) in *. set (f0 := build_0 K y). set (f1 := build_1 K dom I y f0).
   set (f2 := build_2 K dom I y f0 f1). set (M := mk_anova 2 dom f0 f1 f2).
   assert (Ldom : length dom = dimI I) by apply domain_length.
   assert (HdM : a_d M = dimI I) by exact Ldom.
   assert (Hshp : length (shapes dom) = dimI I) by (unfold shapes; now rewrite map_length).
-  assert (Hf1 : forall k, (k < a_d M)%nat -> (nth k idx O < length (nth k (a_f1 M) []))%nat).
-  { intros k Hk. rewrite HdM in Hk. specialize (Hidx k Hk). cbn [a_f1 M]. unfold f1.
-    pose proof (build_1_shape K dom I y f0) as E. apply (f_equal (fun l => nth k l O)) in E.
-    rewrite nth_indep with (d' := length (@nil T)) in E by (rewrite map_length, build_1_length; lia).
-    rewrite map_nth in E. rewrite E. exact Hidx. }
   (* the pair tensors *)
   set (np := length (pairs (dimI I))).
   set (P := fun num => let p := nth num (pairs (a_d M)) (O, O) in
@@ -469,6 +468,21 @@ Proof.
     destruct (build_2_nth dom I y f0 f1 num) as [F EF]; [rewrite Ldom; exact Hnum|].
     cbn [a_f2 M]. unfold f2. rewrite Ldom in EF. rewrite EF, mkmat_flat_length, !shapes_nth, Nat.eqb_refl.
     cbn [negb]. unfold P. cbn zeta. rewrite HdM. cbn [a_f2 M]. unfold f2. rewrite EF, !shapes_nth. reflexivity. }
+  exists (tab np P). split; [apply tab_length|]. split.
+  { intros trunc. unfold cores. destruct (Nat.ltb_spec r 2); [lia|]. cbn [a_order M]. cbn [Nat.ltb Nat.leb].
+    rewrite HC2. reflexivity. }
+  split.
+  { rewrite tab_length. intros num Hnum. rewrite nth_tab by exact Hnum. unfold P. cbn zeta. rewrite HdM.
+    destruct (nth num (pairs (dimI I)) (O, O)) as [i j] eqn:Ep. cbn [fst snd].
+    assert (Hij : (i < j < dimI I)%nat).
+    { apply pairs_In. rewrite <- Ep. apply nth_In. exact Hnum. }
+    eexists _, i, j. split; [exact Hij|]. split; [|split]; [| |reflexivity]; reflexivity. }
+  intros idx L Hidx.
+  assert (Hf1 : forall k, (k < a_d M)%nat -> (nth k idx O < length (nth k (a_f1 M) []))%nat).
+  { intros k Hk. rewrite HdM in Hk. specialize (Hidx k Hk). cbn [a_f1 M]. unfold f1.
+    pose proof (build_1_shape K dom I y f0) as E. apply (f_equal (fun l => nth k l O)) in E.
+    rewrite nth_indep with (d' := length (@nil T)) in E by (rewrite map_length, build_1_length; lia).
+    rewrite map_nth in E. rewrite E. exact Hidx. }
   assert (HP : forall num, (num < np)%nat ->
             okY idx (shapes dom) (P num) /\
             get K (P num) idx = mget K (nth num f2 (mk_mat O O []))
@@ -500,9 +514,6 @@ Proof.
       cbn [a_f1 M]. apply build_1_shape. }
   assert (H2 : Forall (okY idx (shapes dom)) (tab np P)).
   { apply Forall_forall. intros Yc Hin. apply in_tab in Hin as (num & Hnum & ->). now apply HP. }
-  exists (tab np P). split; [apply tab_length|]. split.
-  { intros trunc. unfold cores. destruct (Nat.ltb_spec r 2); [lia|]. cbn [a_order M]. cbn [Nat.ltb Nat.leb].
-    rewrite HC2. reflexivity. }
   split; [exact H1|]. split; [exact H2|].
   unfold calc_pos. cbn [a_order M Nat.leb a_f0]. 
   rewrite (cores_1_get K Rth) by (auto; lia). cbn [a_f0 M].
@@ -525,7 +536,8 @@ Theorem anova_order2_get_partial I y (M : anova T) r g trunc idx err :
      get K Y idx = calc_pos K M idx + bsum K ncalls err.
 Proof.
   intros HM Hr Hd L Hidx Htr.
-  destruct (anova_order2_struct I y M r g idx HM Hr Hd L Hidx) as (Ps & LP & HC & H1 & H2 & HS).
+  destruct (anova_order2_struct I y M r g HM Hr Hd) as (Ps & LP & HC & _ & HI).
+  destruct (HI idx L Hidx) as (H1 & H2 & HS).
   assert (Hshp : (2 <= length (shapes (domain I)))%nat) by (unfold shapes; rewrite map_length, domain_length; exact Hd).
   destruct (add_many_get K Rth trunc idx (shapes (domain I)) err Htr Hshp _ _ H1 H2) as (nc & Hnc & Hok & G).
   exists (add_many K trunc (cores_1 K M r 0 g :: Ps)), nc.
@@ -547,7 +559,8 @@ Theorem anova_order2_pre I y (M : anova T) r g trunc idx err :
      get K Ypre idx = calc_pos K M idx + bsum K ncalls err.
 Proof.
   intros HM Hr Hd L Hidx Htr.
-  destruct (anova_order2_struct I y M r g idx HM Hr Hd L Hidx) as (Ps & LP & HC & H1 & H2 & HS).
+  destruct (anova_order2_struct I y M r g HM Hr Hd) as (Ps & LP & HC & _ & HI).
+  destruct (HI idx L Hidx) as (H1 & H2 & HS).
   assert (Hshp : (2 <= length (shapes (domain I)))%nat) by (unfold shapes; rewrite map_length, domain_length; exact Hd).
   destruct (add_many_pre K Rth trunc idx (shapes (domain I)) err Htr Hshp _ _ H1 H2) as (Ypre & nc & E & Hnc & Hsmall & Hok & G).
   exists Ypre, nc. rewrite HC, E. rewrite LP in Hnc, Hsmall.
